@@ -50,10 +50,15 @@ def ext_op(name):
     return None
 
 
+def default_opaque(name):
+    """callees that are never inlined: the bit reader primitives (their effect on the stream is the subject of C14)"""
+    return 'parser::reader::H263Reader' in name
+
+
 class TreeBuilder:
-    def __init__(self, F, max_paths=4096, max_depth=6):
+    def __init__(self, F, max_paths=4096, max_depth=6, opaque=default_opaque):
         self.F = F; self.max_paths = max_paths; self.max_depth = max_depth
-        self.paths = 0
+        self.paths = 0; self.opaque = opaque
 
     def function(self, name, args=None, depth=0):
         """returns (ret_expr, stores) where stores = list of (target expr, value expr); both may contain ite nodes"""
@@ -235,9 +240,9 @@ class TreeBuilder:
         # dereference references to locals passed as arguments (value semantics for small Copy types)
         callee = F.local_callee(b['crate'], t)
         name = F.callee_name(t)
-        if callee and depth < self.max_depth:
+        if callee and depth < self.max_depth and not self.opaque(callee):
             try:
-                sub = TreeBuilder(F, self.max_paths, self.max_depth)
+                sub = TreeBuilder(F, self.max_paths, self.max_depth, self.opaque)
                 sub.paths = 0
                 rargs = [self._deref_arg(env, a) for a in args]
                 r, st = sub.function(callee, rargs, depth + 1)
@@ -547,6 +552,10 @@ def canon(e, opts=None):
             cc = lin_const(c)
             if cc is not None: return a if cc != 0 else b
             if a == b: return a
+            # canonical polarity of the condition: eq / lt / le (flip ne, ge, gt by swapping the branches)
+            if is_lin(c) and len(c[1]) == 1 and c[2] == 0 and c[1][0][1] == 1 and c[1][0][0][0] == 'cmp' and c[1][0][0][1] in ('ne', 'ge', 'gt'):
+                cc_ = c[1][0][0]
+                c = atom(('cmp', {'ne': 'eq', 'ge': 'lt', 'gt': 'le'}[cc_[1]], cc_[2])); a, b = b, a
             return atom(('ite', c, a, b))
         if t == 'agg':
             return atom(('agg', e[1]) + tuple(C(x) for x in e[2:]))
@@ -670,3 +679,84 @@ def show_atom(a, depth=0):
     if a[0] == 'cmp': return '%s %s 0' % (show(a[2]), {'eq': '==', 'ne': '!=', 'lt': '<', 'le': '<=', 'gt': '>', 'ge': '>='}[a[1]])
     if a[0] == 'idx': return '%s[%s]' % (show(a[1]) if is_lin(a[1]) else show_atom(a[1]), show(a[2]) if is_lin(a[2]) else show_atom(a[2]))
     return '%s(%s)' % (a[0], ', '.join(show(x, depth + 1) if is_lin(x) else (show_atom(x, depth + 1) if isinstance(x, tuple) else str(x)) for x in a[1:]))
+
+
+# ------------------------------------------------------------------------------------------ from def-use expressions (lint.dataflow.expr_of)
+def from_expr(F, body, e, depth=0):
+    """convert a def-use expression (dataflow.expr_of) into a tree of this module; two-definition locals whose definitions sit in the two
+    arms of one branch become `ite` nodes (gamma), other loop-carried locals stay symbolic inputs"""
+    from .dataflow import defs_of, expr_of, _expr_rv
+    if not isinstance(e, tuple) or not e: return ('c', e)
+    k = e[0]
+    R = lambda x: from_expr(F, body, x, depth + 1)
+    if k == 'c': return e
+    if k == 'param': return _proj(('in', 'arg%d' % e[1]), e[2], R)
+    if k == 'multi':
+        g = _gamma(F, body, e[1], depth)
+        base = g if g is not None else ('in', '$' + body.get('debug', {}).get(str(e[1]), '_%d' % e[1]))
+        return _proj(base, e[2] if len(e) > 2 else (), R)
+    if k == 'op': return ('op', e[1], R(e[2]), R(e[3]))
+    if k == 'un': return ('un', e[1], R(e[2]))
+    if k == 'cast': return ('cast', e[1], R(e[2]))
+    if k == 'call':
+        op = ext_op(e[1])
+        args = tuple(R(x) for x in e[2:])
+        if op == 'id': return args[0]
+        if op: return ('call', op) + args
+        return ('call', e[1]) + args
+    if k == 'fld': return _proj(R(e[1]), e[2], R)
+    if k == 'len': return ('call', 'len', R(e[1]))
+    if k == 'agg': return ('agg', e[1]) + tuple(R(x) for x in e[2:])
+    if k == 'item': return ('item', e[1])
+    if k == 'discr': return ('discr', R(e[1]))
+    return ('unk', repr(e)[:80])
+
+
+def _proj(base, path, R):
+    for el in path:
+        if isinstance(el, int): base = project(base, {'p': 'field', 'i': el}, None)
+        elif isinstance(el, tuple) and el[0] == 'as': base = ('as', base, el[1]) if base[0] != 'agg' else base
+        elif isinstance(el, tuple) and el[0] == 'idx': base = index(base, R(el[1]) if isinstance(el[1], tuple) else ('unk', 'idx'))
+        elif isinstance(el, tuple) and el[0] == 'cidx': base = index(base, ('c', el[1]))
+        else: base = ('proj?', base, el)
+    return base
+
+
+def _gamma(F, body, l, depth):
+    from .dataflow import defs_of, _expr_rv, expr_of
+    if depth > 12: return None
+    D = defs_of(body); g = cfg_of(body)
+    ds = [d for d in D.defs.get(l, []) if d[0] == 'assign' and not d[3]['lhs']['proj']]
+    if len(ds) != len(D.defs.get(l, [])) or len(ds) != 2: return None
+    (d1, d2) = ds
+    b1, b2 = d1[1], d2[1]
+    cd = g.control_deps()
+    for (a, s1) in cd.get(b1, ()):
+        for (a2, s2) in cd.get(b2, ()):
+            if a == a2 and s1 != s2:
+                t = g.blocks[a]['term']
+                if t['t'] != 'switch': continue
+                cond = from_expr(F, body, expr_of(F, body, t['on']), depth + 1)
+                arms = {to: int(v) for v, to in t['arms']}
+                v1 = from_expr(F, body, _expr_rv(F, body, d1[3]['rv'], 0, {}), depth + 1)
+                v2 = from_expr(F, body, _expr_rv(F, body, d2[3]['rv'], 0, {}), depth + 1)
+                if s1 in arms: return ite(('op', 'Eq', cond, ('c', arms[s1])), v1, v2)
+                if s2 in arms: return ite(('op', 'Eq', cond, ('c', arms[s2])), v2, v1)
+    return None
+
+
+def leaves(r, acc=None):
+    """input atoms ('in', ...) of a canonical form"""
+    if acc is None: acc = set()
+    if isinstance(r, tuple):
+        if r and r[0] == 'in': acc.add(r); return acc
+        for x in r:
+            if isinstance(x, tuple): leaves(x, acc)
+    return acc
+
+
+def subst(r, mapping):
+    """replace sub-forms (by equality) in a canonical form; the result must be re-normalised by the caller if needed"""
+    if r in mapping: return mapping[r]
+    if isinstance(r, tuple): return tuple(subst(x, mapping) if isinstance(x, tuple) else x for x in r)
+    return r
